@@ -2,6 +2,7 @@ package exec
 
 import (
 	"fmt"
+	"runtime"
 	"go/constant"
 	"go/token"
 	"go/types"
@@ -67,6 +68,10 @@ type Exec struct {
 	Obligations int
 	Discharged  int
 	parseFloatN int
+	QuerySites  map[string]int
+	Lazy        bool
+	LazyForks   int
+	LazyDropped int
 	onRootReturn func(v Value)
 }
 
@@ -110,9 +115,33 @@ func (x *Exec) feasible(s *State, cond *smt.Term) (bool, []uint64) {
 	if x.Concrete {
 		return false, nil
 	}
+	// syntactic shortcut: the negation of cond is a conjunct of the path condition
+	neg := x.Ctx.Not(cond)
+	for _, p := range s.PC {
+		if p == neg {
+			return false, nil
+		}
+		if p.Op == smt.OpAnd && (p.A[0] == neg || p.A[1] == neg) {
+			return false, nil
+		}
+	}
 	k := feasKey{pcKey(s.PC), cond}
 	if r, ok := x.feasCache[k]; ok {
 		return r.res != smt.Unsat, r.model
+	}
+	if x.QuerySites != nil {
+		var pcs [6]uintptr
+		n := runtime.Callers(2, pcs[:])
+		fr := runtime.CallersFrames(pcs[:n])
+		site := ""
+		for i := 0; i < 4; i++ {
+			f, more := fr.Next()
+			site += fmt.Sprintf("%s:%d < ", f.Function[strings.LastIndex(f.Function, ".")+1:], f.Line)
+			if !more {
+				break
+			}
+		}
+		x.QuerySites[site]++
 	}
 	as := append(append([]*smt.Term(nil), s.PC...), cond)
 	res, model := x.Solver.Check(as, true)
@@ -127,11 +156,8 @@ func (x *Exec) feasible(s *State, cond *smt.Term) (bool, []uint64) {
 // valid reports whether pc ⇒ cond; when not, it returns a counter-model.
 func (x *Exec) valid(s *State, cond *smt.Term) (ok bool, model []uint64, unknown bool) {
 	neg := x.Ctx.Not(cond)
-	if neg.IsConst() {
-		if neg.Val == 0 {
-			return true, nil, false
-		}
-		return false, s.Model, s.Model == nil
+	if neg.IsConst() && neg.Val == 0 {
+		return true, nil, false
 	}
 	if s.Model != nil && smt.Eval(neg, s.Model, map[*smt.Term]uint64{}) == 1 {
 		return false, s.Model, false
@@ -380,6 +406,15 @@ func (x *Exec) enterBlock(s *State, b *ssa.BasicBlock) bool {
 }
 
 func (x *Exec) unwindFailure(s *State, b *ssa.BasicBlock) {
+	if s.Model == nil && !x.Concrete {
+		res, m := x.Solver.Check(s.PC, true)
+		if res == smt.Unsat {
+			return // an infeasible path explored lazily
+		}
+		if res == smt.Sat {
+			s.Model = m
+		}
+	}
 	x.addFinding(s, "unwind", fmt.Sprintf("block %d of %s visited more than %d times", b.Index, b.Parent(), x.MaxVisits), "", s.Model, s.Model == nil)
 }
 
@@ -490,9 +525,30 @@ func (x *Exec) raisePanic(s *State, msg string) bool {
 // forkOn splits s on the outcomes and returns the feasible children. assign puts an
 // outcome's value where it belongs and advances the child.
 func (x *Exec) forkOn(s *State, outs []Outcome, assign func(c *State, o Outcome) bool) (stepResult, []*State, stopPoint) {
+	return x.forkOnL(s, outs, assign, false)
+}
+
+// forkOnL with lazy == true does not ask the solver whether each outcome is feasible:
+// every outcome that is not syntactically false is explored and carries its condition
+// in the path condition, so obligations met on an infeasible arm are vacuously
+// discharged. Used for branches that rejoin inside the same function.
+func (x *Exec) forkOnL(s *State, outs []Outcome, assign func(c *State, o Outcome) bool, lazy bool) (stepResult, []*State, stopPoint) {
 	var feas []Outcome
 	var models [][]uint64
 	for _, o := range outs {
+		if lazy && !x.Concrete {
+			if o.Cond == smt.False {
+				continue
+			}
+			var m []uint64
+			if s.Model != nil && smt.Eval(o.Cond, s.Model, map[*smt.Term]uint64{}) == 1 {
+				m = s.Model
+			}
+			feas = append(feas, o)
+			models = append(models, m)
+			x.LazyForks++
+			continue
+		}
 		ok, m := x.feasible(s, o.Cond)
 		if ok {
 			feas = append(feas, o)
@@ -625,6 +681,28 @@ func (x *Exec) step(s *State) (stepResult, []*State, stopPoint) {
 		x.addFinding(s, "unwind", fmt.Sprintf("path exceeds %d instructions", x.MaxSteps), "", s.Model, s.Model == nil)
 		return stepDead, nil, stopPoint{}
 	}
+	if s.Model == nil && !x.Concrete {
+		// a lazily explored arm: settle its feasibility once it has run for a while
+		if s.UnknownSince == 0 {
+			s.UnknownSince = s.Steps
+		} else if s.Steps-s.UnknownSince > 4000 {
+			res, m := x.Solver.Check(s.PC, true)
+			if res == smt.Unsat {
+				x.LazyDropped++
+				return stepDead, nil, stopPoint{}
+			}
+			if res == smt.Sat {
+				s.Model = m
+			}
+			s.UnknownSince = 0
+			if res == smt.Unknown {
+				s.UnknownSince = s.Steps
+				x.Undecided++
+			}
+		}
+	} else {
+		s.UnknownSince = 0
+	}
 	if x.Trace {
 		fmt.Printf("%*s%s [%d.%d] %v\n", len(s.Frames), "", f.Fn.Name(), f.Block.Index, f.IP, ins)
 	}
@@ -653,15 +731,14 @@ func (x *Exec) step(s *State) (stepResult, []*State, stopPoint) {
 		}
 		succs := f.Block.Succs
 		outs := []Outcome{{Cond: c}, {Cond: x.Ctx.Not(c)}}
-		first := true
-		return x.forkOn(s, outs, func(cs *State, o Outcome) bool {
+		lazy := x.Lazy
+		return x.forkOnL(s, outs, func(cs *State, o Outcome) bool {
 			idx := 1
 			if o.Cond == c {
 				idx = 0
 			}
-			_ = first
 			return x.enterBlock(cs, succs[idx])
-		})
+		}, lazy)
 
 	case *ssa.Return:
 		var result Value
@@ -1363,7 +1440,7 @@ func (x *Exec) sliceOp(s *State, f *Frame, ins *ssa.Slice) []Outcome {
 		if lo < 0 || hi < lo || hi > len(xv.B) {
 			return panicOutcome(fmt.Sprintf("slice bounds out of range [%d:%d] with length %d", lo, hi, len(xv.B)))
 		}
-		return one(Str{xv.B[lo:hi]})
+		return one(Str{B: xv.B[lo:hi]})
 	case Slice:
 		lo, ok1 := geti(ins.Low, 0)
 		hi, ok2 := geti(ins.High, xv.Len)
